@@ -560,8 +560,13 @@ def run_driver(binary, executions, trace_path, timeout=600, env=None, args=(), p
     return res
 
 
+_ln_re = re.compile(r'"ln":(\d+)')
+
+
 def index_trace(trace_path):
-    """Returns list of (execution index, step index within execution) for each line (0-based list)."""
+    """Returns list of (execution index, step) for each trace line (0-based list).  step = 1-based index of the op
+    (line of the op file within its execution) that produced the event: taken from the event's "ln" field when the
+    driver logs one (drivers whose ops produce several events), else the event's position in its execution."""
     idx = []
     ex = -1
     step = 0
@@ -571,7 +576,8 @@ def index_trace(trace_path):
                 ex += 1
                 step = 0
             else:
-                step += 1
+                m = _ln_re.search(line)
+                step = int(m.group(1)) if m else step + 1
             idx.append((ex, step))
     return idx
 
